@@ -394,6 +394,77 @@ FIXTURES = {
 }
 
 
+def r17_6(ctx):
+    """the section indices the loader uses exist: the file declares how many buffers
+    the arena has, and every constant section index used on a loaded arena is
+    dominated by a test that the arena has more buffers than that"""
+    from .C14 import canon
+    from .. import paths
+    prog = ctx.prog
+    n = 0
+    for fname in ('yr_rules_from_arena', 'yr_rules_load_stream'):
+        f = prog.fn(fname, 'libyara/rules.c')
+        if f is None:
+            continue
+        uses = []
+        for c in f.calls():
+            if c.get('callee') in ('yr_arena_get_ptr', 'yr_arena_get_current_offset'):
+                a = f.call_args(c)
+                k = cu.const_of(cu.strip_casts(f, a[1]))
+                if k is not None:
+                    uses.append((c, canon(f, a[0]), k))
+        if not uses:
+            continue
+        ids = {u[0]['i']: u for u in uses}
+        low = {}
+
+        def step(x, facts):
+            if x['k'] == 'ret':
+                return None
+            return facts
+
+        def edge(b, term, cond, idx, succ, facts):
+            pol = paths.branch_polarity(f, term, idx)
+            if pol is None or cond is None:
+                return facts
+            c, p2 = paths.normalise_cond(f, cond, pol)
+            if c is None or c['k'] != 'bin' or c['op'] not in ('<', '<=', '>', '>=', '!=', '=='):
+                return facts
+            l = canon(f, f.kid(c, 0))
+            k = cu.const_of(cu.strip_casts(f, f.kid(c, 1)))
+            if not l.endswith('->num_buffers') or k is None:
+                return facts
+            op = c['op'] if p2 else {'<': '>=', '<=': '>', '>': '<=', '>=': '<', '!=': '==', '==': '!='}[c['op']]
+            ge = None
+            if op == '>=':
+                ge = k
+            elif op == '>':
+                ge = k + 1
+            elif op == '==':
+                ge = k
+            if ge is None:
+                return facts
+            return frozenset(facts) | {('ge', l[:-len('->num_buffers')], ge)}
+
+        def obs(x, facts):
+            if x['i'] in ids:
+                c, arena, k = ids[x['i']]
+                best = max([y[2] for y in facts if y[0] == 'ge' and y[1] == arena] or [0])
+                low[x['i']] = best
+        paths.must_flow(f, set(), step, edge, obs)
+        need = max(u[2] for u in uses) + 1
+        got = min(low.get(u[0]['i'], 0) for u in uses)
+        n += 1
+        ctx.ob('R17.6', '%s:section-indices-exist' % fname, got >= need, f.loc(uses[0][0]),
+               '%d constant section indices (up to %d) are used only after num_buffers >= %d was '
+               'established' % (len(uses), need - 1, got) if got >= need else
+               '%s uses section index %d of a loaded arena without having tested that the arena has more '
+               'than %d buffers (established: num_buffers >= %d): a file whose header declares fewer '
+               'sections makes yr_arena_get_ptr() fail its assertion (or read a buffer slot that does '
+               'not exist)' % (fname, need - 1, need - 1, got))
+    ctx.count('loader_functions_indexing_sections', n)
+
+
 def run(ctx):
     r17_1(ctx)
     ctx.floor('R17.1', 3)
@@ -406,3 +477,5 @@ def run(ctx):
     from .C16 import r16_7
     r16_7(ctx, only=(LOADER, 'yr_rules_load_stream', 'yr_rules_load', 'yr_rules_from_arena'), rule='R17.5')
     ctx.floor('R17.5', 2)
+    r17_6(ctx)
+    ctx.floor('R17.6', 1)
